@@ -258,11 +258,31 @@ def real_pairs(ctx):
     return pairs
 
 
+def handoff_specs(ctx):
+    """full three-round runs whose optimiser inputs are inspected (rounds 1-2 only run when shutoff != immediate)"""
+    import csv, os, lib
+    rng = ctx.rng
+    with open(os.path.join(lib.REPO, "data", "no_food_trade", "computer_readable_combined.csv")) as f:
+        isos = [row["iso3"] for row in csv.DictReader(f)]
+    scen = ["all_resilient_foods", "all_resilient_foods_and_more_area", "relocated_crops", "greenhouse", "no_resilient_foods",
+            "industrial_foods"]
+    shut = ["long_delayed_shutoff", "short_delayed_shutoff", "continued", "one_month_delayed_shutoff"]
+    specs = [{"iso3": "ARG", "preset": "argentina_net_nuclear_resilient"},
+             {"iso3": rng.choice(["USA", "IND", "FRA", "BRA", "AUS"]), "options": dict(REAL_BASE, title="verif", scenario="greenhouse",
+                                                                                      shutoff="long_delayed_shutoff")}]
+    for _ in range(1 if ctx.quick else 40):
+        specs.append({"iso3": rng.choice(isos), "options": dict(REAL_BASE, title="verif", scenario=rng.choice(scen),
+                                                                shutoff=rng.choice(shut),
+                                                                crop_disruption=rng.choice(["zero", "country_nuclear_winter"]))})
+    return specs
+
+
 def audit(ctx):
     rng = ctx.rng
     n = 110 if ctx.quick else 2500
     cases = [gen_consts(rng, {"add": True} if k % 2 else {}) for k in range(n)]
-    res = ctx.run_impl("c09_audit", {"cases": cases, "seed": rng.randint(0, 1 << 30), "real_pairs": real_pairs(ctx)})
+    res = ctx.run_impl("c09_audit", {"cases": cases, "seed": rng.randint(0, 1 << 30), "real_pairs": real_pairs(ctx),
+                                     "handoff": handoff_specs(ctx)})
     ctx.notes["audit"] = {k: v for k, v in res.items() if k != "failures"}
     ctx.count(n=res["checks"])
     for k in range(res["distinct"]):
@@ -282,7 +302,8 @@ def replay(rep):
     ctx = lib.Ctx("C09", "quick", rep.get("seed", 0))
     if rep.get("runner") == "c09_audit":
         payload = {"cases": [rep["consts"]] if "consts" in rep else [], "seed": rep.get("audit_seed", 0),
-                   "real_pairs": [rep["real_pair"]] if "real_pair" in rep else []}
+                   "real_pairs": [rep["real_pair"]] if "real_pair" in rep else [],
+                   "handoff": [rep["handoff"]] if "handoff" in rep else []}
         res = ctx.run_impl("c09_audit", payload)
         bad = [f for f in res["failures"] if f["kind"] == rep.get("kind_of_failure", f["kind"])]
         for f in bad[:5]:
